@@ -64,17 +64,17 @@ H("h_numbers::c01_bin_int_u5", ["C01", "C04"], "numbers::bin_int (+ from_utf8_un
 H("h_numbers::c01_zero_prefixable_int_u4", ["C01", "C04"], "numbers::zero_prefixable_int (+ from_utf8_unchecked)", U % 4, measured_s=43)
 H("h_numbers::c01_frac_u4", ["C01", "C04"], "numbers::frac (+ from_utf8_unchecked)", U % 4, measured_s=53)
 H("h_numbers::c01_exp_u4", ["C01", "C04"], "numbers::exp (+ from_utf8_unchecked)", U % 4, measured_s=60)
-H("h_numbers::c01_float_syntax_a4", ["C01", "C04"], "numbers::float_ (dec_int, exp, frac; + from_utf8_unchecked)", A % 4, measured_s=280, tier="thorough")
+H("h_numbers::c01_float_syntax_a4", ["C01", "C04"], "numbers::float_ (dec_int, exp, frac; + from_utf8_unchecked)", A % 4, measured_s=280, tier="thorough", rss_gb=24)
 for b, n in (("hex", "0x"), ("oct", "0o"), ("bin", "0b")):
     H(f"h_numbers::c02_integer_{b}_a5", ["C02", "C01", "C11", "C04"], f"numbers::integer ({b} arm: dispatch, {b}_int, replace, from_str_radix)",
-      f"`{n}` + every ASCII string of <= 3 bytes (symbolic length)", tier="thorough", measured_s=300, models=("M1", "M2", "M7"))
+      f"`{n}` + every ASCII string of <= 3 bytes (symbolic length)", tier="thorough", measured_s=300, models=("M1", "M2", "M7"), rss_gb=24)
 H("h_numbers::c02_integer_dec_a4", ["C02", "C01", "C11", "C04"], "numbers::integer (decimal arm: dispatch, dec_int, rest, replace, parse::<i64>)",
-  A % 4 + " not starting with 0x / 0o / 0b", tier="thorough", measured_s=355, models=("M1", "M2", "M7"))
-H("h_numbers::c11_integer_hex_edge16", ["C11", "C02", "C01", "C04"], "numbers::integer (hex arm) with M2", "`0x` + 16 symbolic hex digits (every 64-bit pattern, both cases of A-F)", tier="thorough", measured_s=372, models=("M1", "M2", "M7"), mem_gb=40, rss_gb=16)
-H("h_numbers::c11_integer_oct_edge22", ["C11", "C02", "C01", "C04"], "numbers::integer (octal arm) with M2", "`0o` + 22 symbolic octal digits (66 bits)", tier="thorough", measured_s=478, models=("M1", "M2", "M7"), mem_gb=40, rss_gb=16)
+  A % 4 + " not starting with 0x / 0o / 0b", tier="thorough", measured_s=355, models=("M1", "M2", "M7"), rss_gb=24)
+H("h_numbers::c11_integer_hex_edge16", ["C11", "C02", "C01", "C04"], "numbers::integer (hex arm) with M2", "`0x` + 16 symbolic hex digits (every 64-bit pattern, both cases of A-F)", tier="thorough", measured_s=372, models=("M1", "M2", "M7"), mem_gb=40, rss_gb=24)
+H("h_numbers::c11_integer_oct_edge22", ["C11", "C02", "C01", "C04"], "numbers::integer (octal arm) with M2", "`0o` + 22 symbolic octal digits (66 bits)", tier="thorough", measured_s=478, models=("M1", "M2", "M7"), mem_gb=40, rss_gb=24)
 # deeper bounds of the same kernels (thorough tier)
 H("h_trivia::c01_comment_u6", ["C01", "C04"], "trivia::comment", U % 6, tier="thorough", measured_s=10)
-H("h_trivia::c01_ws_comment_newline_a5", ["C01", "C04"], "trivia::ws_comment_newline", A % 5, tier="thorough", measured_s=405, termination=True, rss_gb=16)
+H("h_trivia::c01_ws_comment_newline_a5", ["C01", "C04"], "trivia::ws_comment_newline", A % 5, tier="thorough", measured_s=405, termination=True, rss_gb=24)
 H("h_trivia::c01_ws_newline_a6", ["C01", "C04"], "trivia::ws_newline", A % 6, tier="thorough", measured_s=81)
 H("h_numbers::c01_dec_int_u6", ["C01", "C04"], "numbers::dec_int", U % 6, tier="thorough", measured_s=107)
 H("h_numbers::c01_dec_int_u10", ["C01", "C04"], "numbers::dec_int", U % 10, tier="thorough", measured_s=131)
@@ -85,7 +85,7 @@ H("h_numbers::c01_bin_int_u7", ["C01", "C04"], "numbers::bin_int", U % 7, tier="
 H("h_numbers::c01_zero_prefixable_int_u6", ["C01", "C04"], "numbers::zero_prefixable_int", U % 6, tier="thorough", measured_s=87)
 H("h_numbers::c01_frac_u6", ["C01", "C04"], "numbers::frac", U % 6, tier="thorough", measured_s=114)
 H("h_numbers::c01_exp_u6", ["C01", "C04"], "numbers::exp", U % 6, tier="thorough", measured_s=118)
-H("h_numbers::c01_float_syntax_a5", ["C01", "C04"], "numbers::float_ (dec_int, exp, frac)", A % 5, tier="thorough", measured_s=481, rss_gb=16)
+H("h_numbers::c01_float_syntax_a5", ["C01", "C04"], "numbers::float_ (dec_int, exp, frac)", A % 5, tier="thorough", measured_s=481, rss_gb=24)
 H("h_strings::c01_unquoted_key_u8", ["C01", "C04"], "key::unquoted_key", U % 8, tier="thorough", measured_s=20)
 H("h_numbers::c01_true_a5", ["C01", "C02"], "numbers::true_", A % 5, measured_s=6)
 H("h_numbers::c01_false_a6", ["C01", "C02"], "numbers::false_", A % 6, measured_s=7)
@@ -119,7 +119,6 @@ H("h_datetime_kernels::c12_time_offset_shape6", ["C12", "C01", "C02", "C04"], "d
 
 H("h_datetime_kernels::c12_full_date_a11", ["C12", "C01", "C02", "C04"], "datetime::full_date (date_fullyear, date_month, date_mday, leap-year rule, cut errors)", A % 11, measured_s=167, tier="thorough")
 H("h_datetime_kernels::c12_partial_time_a10", ["C12", "C01", "C02", "C04"], "datetime::partial_time (time_hour, time_minute, time_second, time_secfrac)", A % 10, measured_s=222, tier="thorough")
-H("h_datetime_kernels::c12_date_time_a10", ["C12", "C01", "C02", "C04"], "datetime::date_time (the assembled rule: alt / opt of full_date, time_delim, partial_time, time_offset)", A % 10, tier="thorough", measured_s=1633, mem_gb=40, rss_gb=16)
 
 # ---- toml_datetime::Datetime::from_str (public API, no hook) ------------------------------------
 H("h_datetime_fromstr::c12_fromstr_a8", ["C12", "C04"], "toml_datetime::Datetime::from_str, digit", A % 8, measured_s=80, models=("M8",))
@@ -133,8 +132,8 @@ H("h_datetime_fromstr::c12_fromstr_shape_feb", ["C12", "C04"], "toml_datetime::D
 for k, t, m in ((1, "quick", 104), (4, "quick", 112), (9, "thorough", 500), (10, "thorough", 450)):
     H(f"h_datetime_fromstr::c12_fromstr_time_frac{k}", ["C12", "C04"], "toml_datetime::Datetime::from_str (fraction loop, 10u32.pow, truncation)", f"`dd:dd:dd.` + exactly {k} symbolic digits", tier=t, measured_s=m, models=("M8",))
 H("h_datetime_fromstr::c12_fromstr_a14", ["C12", "C04"], "toml_datetime::Datetime::from_str, digit", A % 14, measured_s=170, models=("M8",), tier="thorough")
-H("h_datetime_fromstr::c12_fromstr_a19", ["C12", "C04"], "toml_datetime::Datetime::from_str, digit", A % 19, tier="thorough", measured_s=1350, models=("M8",), mem_gb=40, rss_gb=16)
-H("h_datetime_fromstr::c12_fromstr_a25", ["C12", "C04"], "toml_datetime::Datetime::from_str, digit", A % 25, tier="thorough", measured_s=2060, models=("M8",), mem_gb=40, rss_gb=16)
+H("h_datetime_fromstr::c12_fromstr_a19", ["C12", "C04"], "toml_datetime::Datetime::from_str, digit", A % 19, tier="thorough", measured_s=1350, models=("M8",), mem_gb=40, rss_gb=24)
+H("h_datetime_fromstr::c12_fromstr_a25", ["C12", "C04"], "toml_datetime::Datetime::from_str, digit", A % 25, tier="thorough", measured_s=2060, models=("M8",), mem_gb=40, rss_gb=24)
 H("h_datetime_fromstr::c12_fromstr_u7", ["C12", "C04"], "toml_datetime::Datetime::from_str, digit", U % 7, tier="thorough", measured_s=93, models=("M8",))
 H("h_datetime_fromstr::c12_fromstr_u5", ["C12", "C04"], "toml_datetime::Datetime::from_str, digit", U % 5, measured_s=60, models=("M8",))
 
@@ -145,15 +144,13 @@ H("h_datetime_printer::c12_print_time_whole_seconds", ["C12"], P % "Time", "ever
 H("h_datetime_printer::c12_print_offset", ["C12"], P % "Offset", "Z and every Custom offset with |minutes| <= 23:59", measured_s=29, models=("E2",))
 H("h_datetime_printer::c12_print_local_date_and_time", ["C12"], P % "Datetime", "every local date; every local time with whole seconds", measured_s=102, models=("E2",))
 H("h_datetime_printer::c12_print_local_datetime", ["C12"], P % "Datetime", "every local date-time with whole seconds", measured_s=176, models=("E2",), tier="thorough")
-H("h_datetime_printer::c12_print_offset_datetime", ["C12"], P % "Datetime", "every offset date-time with whole seconds, offset Z or |minutes| <= 23:59", tier="thorough", measured_s=483, models=("E2",), mem_gb=40, rss_gb=16)
+H("h_datetime_printer::c12_print_offset_datetime", ["C12"], P % "Datetime", "every offset date-time with whole seconds, offset Z or |minutes| <= 23:59", tier="thorough", measured_s=483, models=("E2",), mem_gb=40, rss_gb=24)
 H("h_datetime_printer::c12_print_time_millis", ["C12"], P % "Time" + " incl. format!(\"{:09}\") + trim_end_matches('0')", "every valid time with nanosecond = m * 1_000_000, m in 1..=999", tier="thorough", measured_s=224, models=("E2",))
 H("h_datetime_printer::c12_print_time_nanos_low", ["C12"], P % "Time" + " incl. format!(\"{:09}\") + trim_end_matches('0')", "every valid time with nanosecond in 1..=999", tier="thorough", measured_s=172, models=("E2",))
 
 # ---- C11: float overflow guard ------------------------------------------------------------------
-H("h_float::c11_float_overflow_guard", ["C11", "C01"], "numbers::float (float_, rest.try_map(parse), verify) with M2 + M3",
-  "[+-]? d (. d)? e [+-]? ddd : all sign choices, all digits symbolic (mantissa <= 2 digits, exponent 3 digits)", tier="thorough", measured_s=725, models=("M1", "M2", "M3", "M7"), mem_gb=40, rss_gb=16)
 H("h_float::c11_float_overflow_guard_small", ["C11", "C01"], "numbers::float (float_, rest.try_map(parse), verify) with M2 + M3",
-  "[-]? d e ddd : optional minus, 4 symbolic digits", tier="thorough", measured_s=1100, models=("M1", "M2", "M3", "M7"), mem_gb=40, rss_gb=16)
+  "[-]? d e ddd : optional minus, 4 symbolic digits", tier="thorough", measured_s=1100, models=("M1", "M2", "M3", "M7"), mem_gb=40, rss_gb=24)
 
 H("h_float_writer::c11_write_f64_all_bits", ["C11"], "toml_write: <f64 as WriteTomlValue>::write_toml_value (unmodified source via E2)", "every f64 bit pattern (integrality of finite values judged by `% 1.0` on both sides, see M4)", measured_s=16, models=("E2", "M4"))
 H("h_float_writer::c11_write_f32_all_bits", ["C11"], "toml_write: <f32 as WriteTomlValue>::write_toml_value (unmodified source via E2)", "every f32 bit pattern", measured_s=11, models=("E2", "M4"))
@@ -176,9 +173,9 @@ H("h_quoting::c10_key_offers_u6", ["C10"], "toml_write::TomlKeyBuilder::{new, as
 # the writer's outer and inner loops run at most len+1 times; the pieces it writes are at most 4 bytes
 ENC_LOOPS = [[r"tw::string::write_toml_value", 5], [r"litefmt::FixedBuf<\d+> as std::fmt::Write>::write_str", 5], [r"Metrics>?::calculate", 5], [r"refmodel::utf8_valid", 5], [r"util::any_utf8", 5]]
 W = "toml_write::string::write_toml_value + TomlStringBuilder (unmodified source via E2)"
-H("h_encode::c10_encode_basic_u3", ["C10"], W + ", as_basic", U % 3, tier="thorough", measured_s=1060, models=("E2", "M8"), loops=ENC_LOOPS, rss_gb=16)
-H("h_encode::c10_encode_literal_u3", ["C10"], W + ", as_literal", U % 3, tier="thorough", measured_s=680, models=("E2", "M8"), loops=ENC_LOOPS, rss_gb=16)
-H("h_encode::c10_encode_ml_literal_u3", ["C10"], W + ", as_ml_literal", U % 3, tier="thorough", measured_s=1370, models=("E2", "M8"), loops=ENC_LOOPS, rss_gb=16)
+H("h_encode::c10_encode_basic_u3", ["C10"], W + ", as_basic", U % 3, tier="thorough", measured_s=1060, models=("E2", "M8"), loops=ENC_LOOPS, rss_gb=24)
+H("h_encode::c10_encode_literal_u3", ["C10"], W + ", as_literal", U % 3, tier="thorough", measured_s=680, models=("E2", "M8"), loops=ENC_LOOPS, rss_gb=24)
+H("h_encode::c10_encode_ml_literal_u3", ["C10"], W + ", as_ml_literal", U % 3, tier="thorough", measured_s=1370, models=("E2", "M8"), loops=ENC_LOOPS, rss_gb=24)
 # (as_ml_basic, as_default and the key builder do not finish within 30 min even at <= 2 bytes: not registered)
 
 # ---- C15: line/column translation ---------------------------------------------------------------
@@ -229,7 +226,7 @@ PROPERTIES = {
         ],
     },
     "C12": {
-        "outside": "the date_time alt/opt assembly in toml_edit beyond 10 bytes; standalone-parser inputs longer than 25 bytes outside the shapes; printing of fractional seconds outside the two slices (whole milliseconds, 1-999 ns); the serde bridge",
+        "outside": "the date_time alt/opt assembly in toml_edit; standalone-parser inputs longer than 25 bytes outside the shapes; printing of fractional seconds outside the two slices (whole milliseconds, 1-999 ns); the serde bridge",
         "assumptions": ["oracle: /verif/refmodel/src/datetime.rs (RFC 3339 5.6 + field ranges of the property; second 0-60 always accepted, U1-c)"],
     },
 }
